@@ -669,7 +669,7 @@ async fn run_account(world: &mut World, acc: &mut Acc, rng: &mut Rng, id: u64, a
 
 pub fn run(args: Args) {
     let args = crate::sim::args_from_replay(args);
-    crate::sim::watchdog(&args, if args.tier == kvcore::Tier::Thorough { 2700 } else { 600 });
+    crate::sim::watchdog(&args, if args.tier == kvcore::Tier::Thorough { 3600 } else { 900 });
     let mut run = Run::new(
         args.clone(),
         "exploration",
@@ -679,7 +679,7 @@ pub fn run(args: Args) {
     run.assume("recover_account(name, Some(password)) is only reachable from the integration-test bootstrap of the server binary; it is driven and counted but not judged");
     run.assume("for set_unix_account_password only passwords too short in bytes and in graphemes are judged (the code documents bytes there)");
     let thorough = args.tier == kvcore::Tier::Thorough;
-    let accounts_per_worker: u64 = if thorough { 1500 } else { 100 };
+    let accounts_per_worker: u64 = if thorough { 800 } else { 60 };
     let attempts = 8usize;
     let seed = args.seed;
     run.parallel(args.workers, |w, _n| {
